@@ -96,7 +96,7 @@ func stCase(o *h.Out, rc *h.Rng, ans func(string)) {
 	defer func() {
 		if p := recover(); p != nil {
 			o.Violate("c12-panic", fmt.Sprintf("panic while running the case: %v", p))
-			ans(fmt.Sprintf("panic %v", p))
+			o.Pad("panic %v", p)
 		}
 	}()
 	{
